@@ -169,7 +169,7 @@ class Ctx:
         except PyExc:
             return None
 
-    def model(self, dotted, fn):
+    def lib_model(self, dotted, fn):
         """assumed contract of a library callable, supplied by the harness"""
         self.I.models[dotted] = lambda I, *a, **k: fn(*a, **k)
 
@@ -208,6 +208,59 @@ class Ctx:
 
     def concrete(self, v):
         return self.E.concretize(v) if is_sym(v) else v
+
+    def ip_text(self, name, ipv6=False):
+        """the textual IP address handed to the builders (opaque string denoting a packed address)"""
+        from .models import IpStr
+        return IpStr(self.bytes(name, length=16 if ipv6 else 4), 6 if ipv6 else 4)
+
+    def token_list(self, name, min_len=0):
+        """a list of symbolic length of opaque tokens (e.g. timestamps: only copied and compared)"""
+        n = self.int(name + ".len", min_len, None)
+        sl = SymList(name, ["v"], n, None, project=lambda x: {"v": x}, inject=lambda vals, k: vals["v"])
+        self.E.declare(name, "tokens", sl)
+        return sl
+
+    def set(self, obj, name, v):
+        obj.attrs[name] = v
+
+    def appends_only(self, qualname, attr_text):
+        """frame obligation (syntactic, conservative): inside `qualname` every occurrence of the expression
+        `attr_text` (e.g. 'self.out') is the receiver of .append/.extend or the operand of `return`"""
+        import ast
+        f = self.I.resolve(qualname)
+        ok = True
+        parents = {}
+        for n in ast.walk(f.node):
+            for ch in ast.iter_child_nodes(n):
+                parents[ch] = n
+        for n in ast.walk(f.node):
+            if isinstance(n, (ast.Attribute, ast.Name)) and ast.unparse(n) == attr_text:
+                p = parents.get(n)
+                if isinstance(p, ast.Attribute) and p.attr in ("append", "extend") and isinstance(parents.get(p), ast.Call) and parents[p].func is p:
+                    continue
+                if isinstance(p, ast.Return):
+                    continue
+                ok = False
+        return ok
+
+    def fresh_choice(self, term, options):
+        """constrain an integer term to one of the options (case split)"""
+        k = self.E.choose(len(options))
+        self.E.assume(term == options[k])
+        return options[k]
+
+    def bytes_fresh(self, name, min_len, max_len):
+        n = self.fresh_int(name + ".len", min_len, max_len)
+        return BBase(self.E.fresh_name(name), n)
+
+    def concrete_bool(self, v):
+        return self.I.truth(v)
+
+    def known_finding(self, fid):
+        """True iff `fid` is listed as an OPEN finding in /verif/known_findings.json: the contract then proves the
+        obligation outside the finding's region, and the check re-confirms the finding's witness natively"""
+        return fid in _open_findings()
 
     def bytearray_of(self, b):
         return ByteArr(to_bytes_val(b))
@@ -324,3 +377,19 @@ class Ctx:
 
 
 from .api import Outcome, SpecRaise  # noqa: E402
+
+
+_KF = None
+
+
+def _open_findings():
+    global _KF
+    if _KF is None:
+        import json
+        import os
+        p = os.path.join(os.path.dirname(os.path.dirname(os.path.abspath(__file__))), "known_findings.json")
+        try:
+            _KF = {k["id"] for k in json.load(open(p)).get("open", [])}
+        except Exception:
+            _KF = set()
+    return _KF
